@@ -157,13 +157,18 @@ HandAgrees == /\ c.name # <<>> => (HandName(c.name) <=> ValidName(c.name))
               /\ HandUnit(c.unit) <=> ValidUnit(c.unit)
 
 (* ---- export: one line per case ------------------------------------------ *)
+\* vacuity tags: which boundary / deviation situations this case exhibits (the check demands that
+\* every tag occurs in the enumerated partition)
+Tags == {t \in {"valid255", "invalid256", "unit63", "unit64", "devname", "devunit", "nulname", "highunit"} :
+          CASE t = "valid255"   -> ValidName(c.name) /\ Total(c.name) = 255
+            [] t = "invalid256" -> /\ ~ValidName(c.name) /\ Total(c.name) = 256 /\ BadCount(c.name, NameRest) = 0
+                                   /\ c.name[1].c \in Letter
+            [] t = "unit63"     -> ValidUnit(c.unit) /\ Total(c.unit) = 63
+            [] t = "unit64"     -> ~ValidUnit(c.unit) /\ Total(c.unit) = 64 /\ BadCount(c.unit, Classes \ NonAscii) = 0
+            [] t = "devname"    -> \E a \in Alts(c) : a.dev = {"name-validated-as-c-string"} /\ a.out # "undefined"
+            [] t = "devunit"    -> \E a \in Alts(c) : a.dev = {"unit-validated-as-c-string"} /\ a.out # "undefined"
+            [] t = "nulname"    -> HasNul(c.name) /\ c.name[1].c \in Letter
+            [] t = "highunit"   -> \E i \in 1..Len(c.unit) : c.unit[i].c = "high"}
 Emit == PrintT(<<"BEH", ToJson([name |-> c.name, nterm |-> c.nterm, unit |-> c.unit, uterm |-> c.uterm,
-                                sweep |-> c.sweep, exp |-> Exp(c), alts |-> Alts(c)])>>)
-\* vacuity witnesses (each must be "violated" by some case)
-WitValid255   == ~(ValidName(c.name) /\ Total(c.name) = 255)
-WitInvalid256 == ~(~ValidName(c.name) /\ Total(c.name) = 256 /\ BadCount(c.name, NameRest) = 0 /\ c.name[1].c \in Letter)
-WitUnit63     == ~(ValidUnit(c.unit) /\ Total(c.unit) = 63)
-WitUnit64     == ~(~ValidUnit(c.unit) /\ Total(c.unit) = 64 /\ BadCount(c.unit, Classes \ NonAscii) = 0)
-WitDevName    == ~(\E a \in Alts(c) : a.dev = {"name-validated-as-c-string"})
-WitDevUnit    == ~(\E a \in Alts(c) : a.dev = {"unit-validated-as-c-string"})
+                                sweep |-> c.sweep, exp |-> Exp(c), alts |-> Alts(c), tags |-> Tags])>>)
 =============================================================================
